@@ -424,7 +424,7 @@ func opsJSON(ops []call) []interface{} {
 func main() {
 	out := flag.String("out", "trace.ndjson", "trace file")
 	script := flag.String("script", "", "JSON file: list of histories generated by TLC")
-	corrupt := flag.String("corrupt", "", "sensitivity exercise: corrupt this logged field of every 7th event (hash|gets|iter|tree)")
+	corrupt := flag.String("corrupt", "", "sensitivity exercise: corrupt this logged field of every 997th event (hash|gets|iter|tree)")
 	flag.Parse()
 	if err := trieutil.SelfTest(); err != nil {
 		vutil.Fatalf("self-test of the independent primitives failed: %v", err)
@@ -440,7 +440,7 @@ func main() {
 	}
 	tr := vutil.NewTrace(*out)
 	emit := func(ev map[string]interface{}) {
-		if *corrupt != "" && tr.N%7 == 3 {
+		if *corrupt != "" && tr.N%997 == 3 {
 			p := ev["proj"].(map[string]interface{})
 			switch *corrupt {
 			case "hash":
